@@ -484,6 +484,9 @@ func c05HostileSQL() []string {
 	// a very long run of doubled quotes inside a literal (28 MB of definition text): work per character must not
 	// grow with the length, and no recursion per character either
 	out = append(out, "CREATE TABLE t1 (a DEFAULT '"+strings.Repeat("''", 14000000)+"', b, c)")
+	// an expression index over a sum of 120000 terms (240 KB of definition text): the work to interpret a definition
+	// must stay proportional to its length
+	out = append(out, "CREATE INDEX t1_part ON t1 ("+strings.Repeat("a+", 120000)+"a)")
 	return out
 }
 
@@ -788,7 +791,7 @@ type c05Shard struct {
 }
 
 func runC05(r *ev.Run) {
-	r.Rule = "base images: 5 small dbgen images (512-byte pages: two-level table and index trees, multi-page overflow chains in a rowid table, an index, a WITHOUT ROWID table and sqlite_master itself, multi-page sqlite_master; the fifth image runs the chain, field and trunc families only in the quick tier); mutants: (field) every structural field x a boundary alphabet (0, 1, +-1, 0x7f/0x80/0xff patterns, own page, every page, page count+1, 9-byte/negative varints, every serial type), (byte) every byte x 8 boundary values (x256 thorough), (chain) overflow chains whose last page points back to each page of the chain (cycle through the first page / cycle with a tail) x declared payload lengths {real, 4000, 2^20, 2^31, 2^40, 2^62}, (dag) towers of interior pages that all share their child: depth x fan-out in {8x60, 3x60, 20x2, 30x1} under every table and index whose root is a leaf, (trunc) every length multiple of 64 and around page boundaries, (sql) hostile CREATE texts in sqlite_master incl. every ASCII punctuation character at the start of a token, inside a name and at the end of the text, and a 28 MB literal of doubled quotes, (field2, thorough) pairs of related fields in one page, (journal) journal header fields x lengths on real files; every mutant runs every public operation in a worker subprocess; oracle: no panic, live heap < 3 GB, < 20 s CPU per operation (a hang, an allocation or a death of the worker counts only when it comes back twice with the mutant run alone). non-trivial = mutants (all differ from the base)"
+	r.Rule = "base images: 5 small dbgen images (512-byte pages: two-level table and index trees, multi-page overflow chains in a rowid table, an index, a WITHOUT ROWID table and sqlite_master itself, multi-page sqlite_master; the fifth image runs the chain, field and trunc families only in the quick tier); mutants: (field) every structural field x a boundary alphabet (0, 1, +-1, 0x7f/0x80/0xff patterns, own page, every page, page count+1, 9-byte/negative varints, every serial type), (byte) every byte x 8 boundary values (x256 thorough), (chain) overflow chains whose last page points back to each page of the chain (cycle through the first page / cycle with a tail) x declared payload lengths {real, 4000, 2^20, 2^31, 2^40, 2^62}, (dag) towers of interior pages that all share their child: depth x fan-out in {8x60, 3x60, 20x2, 30x1} under every table and index whose root is a leaf, (trunc) every length multiple of 64 and around page boundaries, (sql) hostile CREATE texts in sqlite_master incl. every ASCII punctuation character at the start of a token, inside a name and at the end of the text, a 28 MB literal of doubled quotes and an expression index over a sum of 120000 terms, (field2, thorough) pairs of related fields in one page, (journal) journal header fields x lengths on real files; every mutant runs every public operation in a worker subprocess; oracle: no panic, live heap < 3 GB, < 20 s CPU per operation (a hang, an allocation or a death of the worker counts only when it comes back twice with the mutant run alone). non-trivial = mutants (all differ from the base)"
 	bin := os.Getenv("VCHECK_BIN")
 	if bin == "" {
 		bin, _ = os.Executable()
